@@ -23,9 +23,19 @@ def is_private_name(name: str) -> bool:
 def _members(draw: Any, namer: gen.Namer, depth: int, priv_bias: int) -> tuple[list[dict], dict | None]:
     members: list[dict] = []
 
+    used: set[str] = set()
+    shared = {"ca": ["name", "limit", "value"], "me": ["run", "reset", "value_of"], "ia": ["name", "weight", "limit"], "Nest": ["Meta", "Entry"]}
+
     def nm(stem: str, allow_dunder: bool = False) -> str:
         r = draw(st.integers(0, priv_bias))
         base = namer.fresh(stem)
+        # member names may repeat in other classes (and in enclosing / nested classes): only the chain must be unique
+        if stem in shared and draw(st.integers(0, 2)) == 0:
+            cand = draw(st.sampled_from(shared[stem]))
+            if cand not in used and ("_" + cand) not in used:
+                base = cand
+        used.add(base)
+        used.add("_" + base)
         if r == 0:
             return "_" + base
         if allow_dunder and r == 1 and draw(st.booleans()):
@@ -38,7 +48,7 @@ def _members(draw: Any, namer: gen.Namer, depth: int, priv_bias: int) -> tuple[l
         members.append(gt.attr(nm("ca"), draw(st.sampled_from(SIMPLE_TYPES)), None))
     for _ in range(draw(st.integers(0, 3))):
         kind = draw(st.sampled_from(["method", "method", "static", "classmethod", "property"]))
-        params = [] if kind == "property" else [gt.param(namer.fresh("p"), "pos", ["int"], None) for _ in range(draw(st.integers(0, 2)))]
+        params = [] if kind == "property" else [gt.param(namer.fresh("p"), "pos", ["int"], None) for _ in range(draw(st.sampled_from([0, 1, 1, 2, 4])))]
         members.append(gt.func(nm("me", allow_dunder=(kind == "method")), params, ret=draw(st.sampled_from(SIMPLE_TYPES)), kind=kind))
     if depth < 2:
         for _ in range(draw(st.sampled_from([0, 0, 1, 1, 2]))):
